@@ -126,7 +126,7 @@ func checkC08(p *ana.Prog, r *ana.Result) {
 	c08Fatal(p, r, ts, pset)
 	c08PacketConn(p, r, ts)
 	c08Cmsg(p, r, ts)
-	c08Progress(p, r, ts)
+	c08Progress(p, r, ts, pset)
 	c08Bounds(p, r, ts, pset)
 }
 
@@ -526,9 +526,18 @@ func c08Cmsg(p *ana.Prog, r *ana.Result, ts *ana.TaintState) {
 				}
 			}
 			if okSrc && ts.Of(arg) == 0 {
-				r.Ok("C08.cmsg", ana.FuncName(f), "cmsg-parser-input:oob", posOf(p, c), "the control-message parser (unsafe reads, panics on unexpected kernel behaviour) is fed oob[:oobn] of this receive call")
+				r.Ok("C08.cmsg", ana.FuncName(f), "cmsg-parser-input:oob", posOf(p, c), "the control-message parser is fed oob[:oobn] of this receive call (kernel-produced data)")
+				continue
+			}
+			// network payload is parsed as control messages: allowed only because the parser
+			// itself is analysed as code that handles network data (its parameter is tainted,
+			// so every index, slice, unsafe access and fatal sink in it is an obligation of
+			// C08.bounds / C08.fatal)
+			callee := c.Common().StaticCallee()
+			if callee != nil && ts.IsReachable(callee) && len(callee.Params) > 0 && ts.Of(callee.Params[0]) != 0 {
+				r.Ok("C08.cmsg", ana.FuncName(f), "cmsg-parser-input:"+desc, posOf(p, c), "network payload is parsed as control messages; the parser's parameter is network-tainted, so its totality is decided by the C08.bounds (in-range, unsafe-read) and C08.fatal obligations inside net/udp.TimestampFromOOBData")
 			} else {
-				r.Violate("C08.cmsg", ana.FuncName(f), "cmsg-parser-input:"+desc, posOf(p, c), "the kernel control-message parser udp.TimestampFromOOBData is applied to "+desc+", which is network payload: it reads through unsafe pointers and panics on 'unexpected timestamping behavior', and its result (an attacker-chosen receive time) reaches ValidateResponseTimestamps' panic")
+				r.Violate("C08.cmsg", ana.FuncName(f), "cmsg-parser-input:"+desc, posOf(p, c), "the control-message parser udp.TimestampFromOOBData is applied to "+desc+" (network payload) but is not analysed as network-facing code")
 			}
 		}
 	}
@@ -550,7 +559,33 @@ func backEdges(fn *ssa.Function) []ana.Edge {
 	return out
 }
 
-func c08Progress(p *ana.Prog, r *ana.Result, ts *ana.TaintState) {
+// lenUsedInCond: cond compares len(ph).
+func lenUsedInCond(ph *ssa.Phi, cond ssa.Value) bool {
+	found := false
+	var walk func(v ssa.Value, d int)
+	walk = func(v ssa.Value, d int) {
+		if d > 6 || found {
+			return
+		}
+		switch x := v.(type) {
+		case *ssa.BinOp:
+			walk(x.X, d+1)
+			walk(x.Y, d+1)
+		case *ssa.UnOp:
+			walk(x.X, d+1)
+		case *ssa.Convert:
+			walk(x.X, d+1)
+		case *ssa.Call:
+			if b, ok := x.Call.Value.(*ssa.Builtin); ok && b.Name() == "len" && x.Call.Args[0] == ssa.Value(ph) {
+				found = true
+			}
+		}
+	}
+	walk(cond, 0)
+	return found
+}
+
+func c08Progress(p *ana.Prog, r *ana.Result, ts *ana.TaintState, pset *ana.ProverSet) {
 	n := 0
 	for _, f := range ts.Reachable() {
 		fname := ana.FuncName(f)
@@ -600,14 +635,44 @@ func c08Progress(p *ana.Prog, r *ana.Result, ts *ana.TaintState) {
 					r.Violate("C08.progress", fname, key, posOf(p, iff), "a loop over network bytes may not advance: "+why+" (a peer-chosen length of 0 - or below the header size - keeps the goroutine spinning forever)")
 				}
 			}
-			// reslice loops: phi of a slice re-sliced by a tainted amount
+			// reslice loops: a slice phi tested through len() that is re-sliced on the way back
 			for _, in := range h.Instrs {
 				ph, isPhi := in.(*ssa.Phi)
 				if !isPhi {
 					break
 				}
-				if _, isSlice := ph.Type().Underlying().(interface{ Elem() interface{} }); isSlice {
-					_ = ph
+				if !isSliceType(ph.Type()) || !lenUsedInCond(ph, iff.Cond) {
+					continue
+				}
+				n++
+				okAll := true
+				why := ""
+				for i, e := range ph.Edges {
+					pred := h.Preds[i]
+					if !h.Dominates(pred) {
+						continue
+					}
+					sl, isSl := e.(*ssa.Slice)
+					if !isSl || sl.X != ssa.Value(ph) || sl.Low == nil {
+						okAll = false
+						why = "the slice is not shortened from the front on the way back to the loop test"
+						continue
+					}
+					pr := pset.For(f)
+					lo, okL := pr.Int(sl.Low, 0)
+					if okL {
+						lo.C -= 1
+					}
+					if !okL || !pr.ProveAt(lo, sl) {
+						okAll = false
+						why = fmt.Sprintf("the amount `%s` cut off the front is not provably >= 1", ana.ValueString(sl.Low))
+					}
+				}
+				key := "loop-cursor:len(" + ph.Comment + ")"
+				if okAll {
+					r.Ok("C08.progress", fname, key, posOf(p, iff), "the slice shrinks by at least 1 byte on every iteration of this loop over network data")
+				} else {
+					r.Violate("C08.progress", fname, key, posOf(p, iff), "a loop over network bytes may not advance: "+why+" (the goroutine keeps spinning on the same bytes)")
 				}
 			}
 		}
@@ -1062,7 +1127,7 @@ func lengthEstablishedByEarlierCall(p *ana.Prog, ts *ana.TaintState, f *ssa.Func
 						}
 					})
 					if os.Getenv("C08_DEBUG") != "" {
-						fmt.Println("DEBUG idiom between-search", ana.FuncName(caller), found, w)
+						fmt.Println("DEBUG-idiom between-search", ana.FuncName(caller), found, w)
 					}
 					if !found {
 						okSite = true
